@@ -307,6 +307,14 @@ def classify(mnem, intent):
     if f == "divzero":
         return ("reject", "division by zero")
     if f == "rel":
+        # a branch whose target is label+-n: the displacement from the end of the branch must fit the field (C03/C12);
+        # numeric or EQU targets are left open. intent carries "at" (address of the branch statement) when the harness knows the layout.
+        if intent.get("label_based") and intent.get("at") is not None:
+            short = "REL8" in modes
+            size = OPC[modes["REL8" if short else "REL16"]][2]
+            d = intent["value"] - (intent["at"] + size)
+            if short and not -128 <= d <= 127:
+                return ("reject", "range: short branch displacement {} does not fit 8 bits".format(d))
         return ("open", "branch target")
 
     if f == "inh":
@@ -516,7 +524,10 @@ def parse_operand(mnem, text, symvals):
             return None
         if "REL8" in modes or "REL16" in modes:
             e = parse_expr(text, symvals) if text else None
-            return {"form": "rel", "value": e[0], "nterms": e[1]} if e else None
+            if not e:
+                return None
+            label_based = bool(_re.match(r"^(L([+-](\d+|\$[0-9A-Fa-f]{1,4}))?|(\d+|\$[0-9A-Fa-f]{1,4})\+L)$", text))
+            return {"form": "rel", "value": e[0], "nterms": e[1], "label_based": label_based, "at": symvals.get("@stmt")}
         if text == "":
             return {"form": "inh"}
         if text[0] == "#":
